@@ -37,6 +37,7 @@ type c07World struct {
 	vetoStore    string
 	vetoKind     boltz.EntityEventType
 	vetoFired    bool
+	vetoErr      error  // what a vetoing constraint / refusing strategy returns
 	stratStore   string // child store whose strategy refuses ...
 	stratOp      string // ... "update" or "delete" arriving through the parent
 }
@@ -49,7 +50,7 @@ type c07Constraint struct {
 func (c *c07Constraint) ProcessPreCommit(state boltz.UntypedEntityChangeState) error {
 	if c.w.vetoStore == c.store && c.w.vetoKind == state.GetChangeType() {
 		c.w.vetoFired = true
-		return errVeto
+		return c.w.vetoErr
 	}
 	return nil
 }
@@ -77,7 +78,7 @@ func newC07World() *c07World {
 		stores[name].StrategyVeto = func(op string, id string) error {
 			if w.stratStore == name && w.stratOp == op {
 				w.vetoFired = true
-				return errVeto
+				return w.vetoErr
 			}
 			return nil
 		}
@@ -98,12 +99,18 @@ type c07Fault struct {
 	callerAt  int    // caller error returned before op index callerAt (len(body) = after the last op)
 	vetoStore string
 	vetoKind  boltz.EntityEventType
+	errType   string // "" = an untyped error; "notfound" = the failure is reported with the library's own not-found error type
 	stratOp   string // kind "strategy": the child store vetoStore refuses this operation in its child-store strategy
 	writeNo   int
 	pre       string // precommit: the registered pre-commit actions in order, F = fails, S = succeeds
 }
 
 func (f c07Fault) String() string {
+	if f.errType != "" {
+		g := f
+		g.errType = ""
+		return g.String() + "[error type " + f.errType + "]"
+	}
 	switch f.kind {
 	case "caller":
 		return fmt.Sprintf("caller-error-before-op-%d", f.callerAt)
@@ -134,6 +141,37 @@ func (w *c07World) extraOps() []explore.Op {
 				return k.people.Create(ctx, k.personRec("#p2", "C", []string{""}, nil, nil, nil))
 			},
 			Apply: func(m explore.Model) []string { return []string{"unusable-key", "exists"} }},
+		// a set element longer than a bolt key may be: the failure is raised while the shared (parent) fields are
+		// persisted - directly, and through the persist context a child store derives for its parent part
+		{Name: "create@people(#p2,name=C,roles=[<40000 bytes>]) [element too large to be stored]",
+			Do: func(ctx boltz.MutateContext) error {
+				return k.people.Create(ctx, k.personRec("#p2", "C", []string{huge}, nil, nil, nil))
+			},
+			Apply: func(m explore.Model) []string { return []string{"unusable-key", "exists"} }},
+		{Name: "create@mgr(#p2,name=C,roles=[<40000 bytes>]) [element too large, through the plain child store]",
+			Do: func(ctx boltz.MutateContext) error {
+				tr := true
+				return k.mgr.Create(ctx, k.personRec("#p2", "C", []string{huge}, nil, &tr, nil))
+			},
+			Apply: func(m explore.Model) []string { return []string{"unusable-key", "exists"} }},
+		{Name: "create@prof(#p2,name=C,roles=[<40000 bytes>]) [element too large, through the extended child store]",
+			Do: func(ctx boltz.MutateContext) error {
+				nick := "n"
+				return k.prof.Create(ctx, k.personRec("#p2", "C", []string{huge}, nil, nil, &nick))
+			},
+			Apply: func(m explore.Model) []string { return []string{"unusable-key", "exists"} }},
+		{Name: "update@mgr(#p1,name=A,roles=[<40000 bytes>]) [element too large, through the plain child store]",
+			Do: func(ctx boltz.MutateContext) error {
+				tr := true
+				return k.mgr.Update(ctx, k.personRec("#p1", "A", []string{huge}, nil, &tr, nil), nil)
+			},
+			Apply: func(m explore.Model) []string { return []string{"unusable-key", "notfound", "dup"} }},
+		{Name: "update@prof(#p1,name=A,roles=[<40000 bytes>]) [element too large, through the extended child store]",
+			Do: func(ctx boltz.MutateContext) error {
+				nick := "n"
+				return k.prof.Update(ctx, k.personRec("#p1", "A", []string{huge}, nil, nil, &nick), nil)
+			},
+			Apply: func(m explore.Model) []string { return []string{"unusable-key", "notfound", "dup"} }},
 		// rejected by input validation before anything is written
 		{Name: "create@people(<blank id>)",
 			Do: func(ctx boltz.MutateContext) error {
@@ -385,6 +423,23 @@ func c07State(rep *report.Report, w *c07World, ops []explore.Op, bodies [][]int,
 				faults = append(faults, c07Fault{kind: "strategy", vetoStore: sn, stratOp: op})
 			}
 		}
+		// the same failures reported with the library's own not-found error type (which some call paths treat specially);
+		// not for bodies with the harness's own "delete, ignoring not-found" operation, which swallows such an error by design
+		ignoresNotFound := false
+		for _, o := range body {
+			ignoresNotFound = ignoresNotFound || strings.HasPrefix(ops[o].Name, "deleteIgnoringNotFound")
+		}
+		for _, sn := range c07StoreNames {
+			if ignoresNotFound {
+				break
+			}
+			faults = append(faults, c07Fault{kind: "veto", vetoStore: sn, vetoKind: boltz.EntityDeleted, errType: "notfound"})
+		}
+		if !ignoresNotFound {
+			faults = append(faults, c07Fault{kind: "strategy", vetoStore: "mgr", stratOp: "delete", errType: "notfound"}, c07Fault{kind: "strategy", vetoStore: "prof", stratOp: "delete", errType: "notfound"})
+		}
+		faults = append(faults, c07Fault{kind: "veto", vetoStore: "people", vetoKind: boltz.EntityUpdated, errType: "notfound"}, c07Fault{kind: "veto", vetoStore: "people", vetoKind: boltz.EntityCreated, errType: "notfound"},
+			c07Fault{kind: "caller", callerAt: len(body), errType: "notfound"}, c07Fault{kind: "precommit", pre: "F", errType: "notfound"}, c07Fault{kind: "precommit", pre: "SF", errType: "notfound"})
 		routes := []string{"Update"}
 		if bi%7 == 0 {
 			routes = append(routes, "nested-Update")
@@ -433,6 +488,13 @@ func c07Run(rep *report.Report, w *c07World, h *c07Db, ops []explore.Op, body []
 	if f.kind == "veto" {
 		w.vetoStore, w.vetoKind = f.vetoStore, f.vetoKind
 	}
+	errBoom, errVeto := errBoom, errVeto
+	if f.errType == "notfound" {
+		// the failure carries an error type the library itself produces and reacts to elsewhere
+		errBoom = boltz.NewNotFoundError("thing", "id", "#verif-caller")
+		errVeto = boltz.NewNotFoundError("thing", "id", "#verif-veto")
+	}
+	w.vetoErr = errVeto
 	w.stratStore, w.stratOp = "", ""
 	if f.kind == "strategy" {
 		w.stratStore, w.stratOp = f.vetoStore, f.stratOp
